@@ -60,6 +60,8 @@ func runL3Zone(spec []string, delay time.Duration) l3Result {
 			rc = dns.RcodeRefused
 		case "n":
 			rc = dns.RcodeNotImplemented
+		case "x":
+			rc = dns.RcodeNameError
 		}
 		switch {
 		case rc >= 0:
@@ -150,7 +152,37 @@ func execL3Zone(a []string) vlib.Res {
 			or = o2
 		}
 	}
-	return vlib.Res{Impl: "l3", Oracle: or, Tags: "nt"}
+	// what the client saw and whether the zone was published as failed: compared with
+	// the model's transcription of the result loop (`lookupFold`, `resolveRecordsZone`)
+	want := "failure"
+	for _, b := range spec {
+		if b == "x" && want == "failure" {
+			want = "nxdomain"
+		}
+		if b == "h" || b == "f" {
+			want = "answer"
+		}
+	}
+	if l3Class(r) != want {
+		r = runL3Zone(spec, delay) // timing is never the verdict
+	}
+	zone := false
+	for _, z := range r.zones {
+		zone = zone || z == "multi.test."
+	}
+	return vlib.Res{Impl: fmt.Sprintf("class=%s zone=%s", l3Class(r), vlib.B(zone)), Oracle: or, Tags: "nt"}
+}
+
+func l3Class(r l3Result) string {
+	switch {
+	case r.rcode == dns.RcodeSuccess && r.answered:
+		return "answer"
+	case r.rcode == dns.RcodeNameError:
+		return "nxdomain"
+	case r.rcode < 0:
+		return "noreply"
+	}
+	return "failure"
 }
 
 // fail l3shed <global|zone>
